@@ -3,9 +3,18 @@ package main
 import (
 	"encoding/hex"
 	"fmt"
+	"go/ast"
+	"go/parser"
+	"go/token"
 	"math"
+	"os"
+	"path/filepath"
+	"reflect"
+	"runtime"
+	"sort"
 	"strconv"
 	"strings"
+	"sync"
 
 	"github.com/pinealctx/neptune/remap"
 
@@ -31,6 +40,20 @@ func randKey(r *rng.R, allowBytes bool) string {
 	switch {
 	case x < 70:
 		t := intTypes[r.Intn(len(intTypes))]
+		if mc := minedConstants(); len(mc) > 0 && r.Chance(1, 5) {
+			// a constant written into the source of remap / the wrappers (±1, also negated): thresholds and "reserved" values
+			c := mc[r.Intn(len(mc))]
+			if t.umax != 0 {
+				return keyToken(t.ty, strconv.FormatUint(c+uint64(r.Intn(3))-1, 10))
+			}
+			v := int64(c) + int64(r.Intn(3)) - 1
+			if r.Chance(1, 4) {
+				v = -v
+			}
+			if c <= uint64(t.hi) && v >= t.lo && v <= t.hi {
+				return keyToken(t.ty, strconv.FormatInt(v, 10))
+			}
+		}
 		if t.umax != 0 {
 			var v uint64
 			switch r.Intn(6) {
@@ -138,6 +161,9 @@ func fixedCases() []corr.Case {
 		lines = append(lines, "simple other:0:0", "xhash other:0:0")
 		out = append(out, mk("fixed-keys", lines...))
 	}
+	// known answers of XXH64 (reference implementation): "", "a", and three keys as the package hashes them today
+	out = append(out, mk("fixed-xxhash-known-answers", "remap 73", "xhash str::17241709254077376921", "xhash str:61:15154266338359012955",
+		"xhash str:757365723a3432:15861654238046376386", "xhash i64:-1:9642548396912002761", "xhash u8:7:12208272383309036471", "xhash bytes:61:15154266338359012955"))
 	out = append(out,
 		mk("fixed-malformed", "reset", "search 1", "remap", "remap x", "remap 0", "search 1", "remap 3", "search", "search -1", "search 18446744073709551616",
 			"simple u8:256:0", "simple i8:-129:0", "simple i8:-0:0", "simple str:6:0", "simple str:6G:0", "simple u8:1", "simple q:1:0", "xhash other:1:0", "frob",
@@ -419,6 +445,9 @@ func genCase(r *rng.R, tier string, i int) corr.Case {
 				x = uint64(r.Intn(4))
 			case 4:
 				x = y*n + uint64(r.Intn(int(n)+1)) // between the last computed boundary and MaxUint64
+				if mc := minedConstants(); len(mc) > 0 && r.Chance(1, 3) {
+					x = mc[r.Intn(len(mc))] + uint64(r.Intn(3)) - 1
+				}
 			default:
 				x = r.U64()
 			}
@@ -548,4 +577,57 @@ func spec() corr.Spec {
 			return "C17:" + op + ":differs-from-model"
 		},
 	}
+}
+
+// minedConstants: the integer literals (and `a << b` forms) in the source of remap and of the sharded wrappers, found
+// through the file path the compiler recorded for remap.NewReMap. A dictionary for the generator, as fuzzers use: a
+// value an edit singles out ("reserved id 0xCAFEBABE", "tables above 1<<20") becomes a value the scripts try.
+var minedOnce sync.Once
+var mined []uint64
+
+func minedConstants() []uint64 {
+	minedOnce.Do(func() {
+		file, _ := runtime.FuncForPC(reflect.ValueOf(remap.NewReMap).Pointer()).FileLine(0)
+		root := filepath.Dir(filepath.Dir(file))
+		seen := map[uint64]bool{}
+		add := func(v uint64) {
+			if v >= 2 && !seen[v] {
+				seen[v] = true
+				mined = append(mined, v)
+			}
+		}
+		for _, d := range []string{"remap", "cache", "cache/tiny", "syncx/keylock", "syncx/semap"} {
+			ents, _ := os.ReadDir(filepath.Join(root, d))
+			for _, e := range ents {
+				if e.IsDir() || !strings.HasSuffix(e.Name(), ".go") || strings.HasSuffix(e.Name(), "_test.go") {
+					continue
+				}
+				f, err := parser.ParseFile(token.NewFileSet(), filepath.Join(root, d, e.Name()), nil, 0)
+				if err != nil {
+					continue
+				}
+				ast.Inspect(f, func(n ast.Node) bool {
+					if bl, ok := n.(*ast.BasicLit); ok && bl.Kind == token.INT {
+						if v, err := strconv.ParseUint(bl.Value, 0, 64); err == nil {
+							add(v)
+						}
+					}
+					if be, ok := n.(*ast.BinaryExpr); ok && be.Op == token.SHL {
+						a, ok1 := be.X.(*ast.BasicLit)
+						b, ok2 := be.Y.(*ast.BasicLit)
+						if ok1 && ok2 {
+							x, e1 := strconv.ParseUint(a.Value, 0, 64)
+							y, e2 := strconv.ParseUint(b.Value, 0, 64)
+							if e1 == nil && e2 == nil && y < 64 && x > 0 && x < 16 {
+								add(x << y)
+							}
+						}
+					}
+					return true
+				})
+			}
+		}
+		sort.Slice(mined, func(i, j int) bool { return mined[i] < mined[j] })
+	})
+	return mined
 }
